@@ -15,32 +15,8 @@
    characters that can reach an ASCII literal, re's \s \d ., str.split, Fraction normalisation, truthiness,
    posixpath.splitext, logging._checkLevel); their character tables are regenerated (Gen/CliUnicode.v).
    No proofs in this file. *)
-From Coq Require Import String Ascii.
-From TT Require Import Base.Prelude Gen.CliUnicode.
-
-(* ASCII string literal -> text *)
-Definition T (s : string) : text := List.map (fun a => Z.of_N (N_of_ascii a)) (list_ascii_of_string s).
-
-(* ------------------------------------------------------------------ JSON values (as json.loads builds them) *)
-Inductive json :=
-| JNull
-| JBool (b : bool)
-| JInt (z : Z)                       (* arbitrary precision *)
-| JFloat (n d : Z)                   (* a finite float, exactly n/d with d > 0 (float.as_integer_ratio) *)
-| JFloatSpecial (k : Z)              (* 0 NaN, 1 Infinity, 2 -Infinity *)
-| JStr (s : text)
-| JArr (l : list json)
-| JObj (l : list (text * json)).     (* source order; a repeated key: the last one wins, as in json.loads *)
-
-(* Python exception classes / exits that can end `tt` before anything is written *)
-Inductive exn := EValue | EType | EAttribute | EZeroDivision | EOverflow | EJsonDecode | EOSError
-               | EExitUnsupported      (* sys.exit("... is not supported") *)
-               | EExitUsage.           (* argparse: exit status 2 *)
-Inductive res (A : Type) := Ok (a : A) | Raise (e : exn).
-Arguments Ok {A} a. Arguments Raise {A} e.
-Definition bind {A B} (r : res A) (f : A -> res B) : res B := match r with Ok a => f a | Raise e => Raise e end.
-Notation "'do' x <- r ; k" := (bind r (fun x => k)) (at level 200, x name, r at level 100, k at level 200).
-Definition is_ok {A} (r : res A) : bool := match r with Ok _ => true | Raise _ => false end.
+From Coq Require Import String.
+From TT Require Import Base.Prelude Base.CliTypes Gen.CliUnicode.
 
 (* ------------------------------------------------------------------ small text helpers *)
 Definition mem (c : Z) (l : list Z) : bool := existsb (Z.eqb c) l.
@@ -157,18 +133,6 @@ Definition truthy (v : json) : bool :=
   end.
 Definition is_null (v : json) : bool := match v with JNull => true | _ => false end.
 
-(* ------------------------------------------------------------------ decoded configuration values *)
-Inductive scc_align := AlLeft | AlCenter | AlRight | AlAuto.
-Inductive tfmt := TfFrames | TfClockTime | TfClockTimeWithFrames.
-Inductive mrc := MrcMNR | MrcInt (z : Z) | MrcBool (b : bool).    (* isinstance(True, int): a bool stays a bool *)
-Definition rgba := (Z * Z * Z * Z)%type.
-Record stl_cfg := { st_fill_gap : bool; st_start_tc : option text; st_line_padding : bool;
-                    st_font_stack : option text   (* the accepted string; its families are parse_font_families of it *);
-                    st_max_row : option mrc }.
-Record imsc_cfg := { im_time_format : option tfmt; im_fps : option (Z * Z) }.
-Record vtt_cfg := { vt_line_position : bool; vt_text_align : bool; vt_cue_id : bool }.
-Record lcd_cfg := { lc_safe_area : Z; lc_preserve_text_align : bool; lc_color : option rgba; lc_bg_color : option rgba }.
-
 (* ---- the decoders, one per `metadata={"decoder": ...}` *)
 (* bool *)
 Definition dec_bool (v : json) : res bool := Ok (truthy v).
@@ -235,7 +199,8 @@ Definition dec_start_tc (v : json) : res (option text) :=
 
 (* stl/config.py _decode_font_stack = tuple(parse_font_families(value)); parse_font_families raises ValueError
    iff _FONT_FAMILY_PATTERN.finditer finds nothing, i.e. iff the pattern matches at no position:
-     '(.+?)(?<!\\)'  |  "(.+?)(?<!\\)"  |  (?:\\.|[^'", ])(?:\\.|[^'",])+                                    *)
+     SQ(.+?)(?<!\\)SQ  |  DQ(.+?)(?<!\\)DQ  |  (?:\\.|[^ SQ DQ , space])(?:\\.|[^ SQ DQ ,])+
+   where SQ is the apostrophe (39) and DQ the quotation mark (34) *)
 Fixpoint quoted_close (q prev : Z) (r : text) : bool :=
   match r with
   | c :: r' => if (c =? q) && negb (prev =? 92) then true else if re_dot c then quoted_close q c r' else false
@@ -245,9 +210,9 @@ Definition quoted_ok (q : Z) (body : text) : bool :=
   match body with c0 :: r => if re_dot c0 then quoted_close q c0 r else false | [] => false end.
 Definition unit_esc (s : text) : option text :=                        (* \\. *)
   match s with 92 :: c :: r => if re_dot c then Some r else None | _ => None end.
-Definition unit1_plain (s : text) : option text :=                     (* [^'", ] *)
+Definition unit1_plain (s : text) : option text :=                     (* none of SQ DQ , space *)
   match s with c :: r => if mem c [39; 34; 44; 32] then None else Some r | [] => None end.
-Definition unit2_plain (s : text) : option text :=                     (* [^'",] *)
+Definition unit2_plain (s : text) : option text :=                     (* none of SQ DQ , *)
   match s with c :: r => if mem c [39; 34; 44] then None else Some r | [] => None end.
 Definition has_unit2 (s : text) : bool :=
   match unit_esc s with Some _ => true | None => match unit2_plain s with Some _ => true | None => false end end.
@@ -417,7 +382,6 @@ Definition read_config {A} (name : string) (parse : list (text * json) -> res A)
   end.
 
 (* ------------------------------------------------------------------ tt.py *)
-Inductive ftype := TTML | SCC | SRT | STL | VTT.
 Definition file_types : list (text * ftype) :=
   [(T "ttml", TTML); (T "scc", SCC); (T "srt", SRT); (T "stl", STL); (T "vtt", VTT)].
 (* FileTypes(value): lookup by value, ValueError otherwise *)
@@ -438,18 +402,6 @@ Definition splitext (p : text) : text :=
       else let name := match rsplit 47 stem with Some (_, b) => b | None => stem end in
            if existsb (fun c => negb (c =? 46)) name then 46 :: e else []
   end.
-
-Record options := { o_input : text; o_output : text; o_itype : option text; o_otype : option text;
-                    o_filters : list text }.
-Inductive argv := NoSubcommand | Subcommand (name : text) (o : options).
-Inductive inline_src := IAbsent | IMalformed | IGiven (j : json).                 (* --config *)
-Inductive file_src := FAbsent | FUnreadable | FMalformed | FGiven (j : json).     (* --config_file *)
-
-Inductive reader := RdTtml | RdScc (c : option scc_align) | RdStl (c : option stl_cfg) | RdSrt | RdVtt.
-Inductive writer := WrTtml (c : option imsc_cfg) | WrSrt (c : option bool) | WrVtt (c : option vtt_cfg).
-Inductive filter_app := FLcd (c : lcd_cfg).
-Record plan_t := { p_reader : reader; p_lang : option text; p_filters : list filter_app; p_writer : writer;
-                   p_level : option Z; p_progress : option bool }.
 
 (* json_config_data: --config is parsed first, then --config_file overwrites it *)
 Definition load_config (inl : inline_src) (fil : file_src) : res (option json) :=
@@ -511,7 +463,6 @@ Definition convert (o : options) (inl : inline_src) (fil : file_src) : res plan_
            end;
   Ok (Build_plan_t rd lang fs wr level progress).
 
-Inductive outcome := OError (e : exn) | OHelp | OPlan (p : plan_t).
 (* main: no sub-command -> print_help; argparse rejects an unknown sub-command (exit status 2) *)
 Definition plan (a : argv) (inl : inline_src) (fil : file_src) : outcome :=
   match a with
@@ -529,11 +480,6 @@ Definition output_action (a : argv) (r : outcome) : option (text * writer) :=
   end.
 
 (* ------------------------------------------------------------------ one key at a time (acceptance table, probes) *)
-Inductive key := KLogLevel | KProgressBar | KDocumentLang | KTimeFormat | KFps | KSccTextAlign
-               | KFillLineGap | KStartTc | KLinePadding | KFontStack | KMaxRowCount | KTextFormatting
-               | KLinePosition | KVttTextAlign | KCueId | KSafeArea | KPreserveTextAlign | KColor | KBgColor.
-Inductive cval := CNone | CBool (b : bool) | CInt (z : Z) | CText (s : text) | CAlign (a : scc_align) | CTfmt (t : tfmt)
-                | CFrac (n d : Z) | CMrc (m : mrc) | CColor (r g b a : Z).
 Definition copt {A} (f : A -> cval) (o : option A) : cval := match o with Some a => f a | None => CNone end.
 (* the value the conversion ends up using for key k when the JSON gives v (for the general keys: after
    setLevel / `not progress_bar` / set_lang; explicit null = "leave as is") *)
@@ -554,4 +500,3 @@ Definition decode (k : key) (v : json) : res cval :=
       do x <- dec_bool v; Ok (CBool x)
   end.
 Definition accepts (k : key) (v : json) : bool := is_ok (decode k v).
-Inductive probe_res := POk (c : cval) | PRaise (e : exn).
